@@ -50,6 +50,13 @@ def plan(pid, tier, seed):
     if pid == "C16":
         return {"jobs": world_jobs(["reserve"], tier, seed, 200, 40000, also_release=True), "release": True,
                 "trusted_base": WORLD_TRUST}
+    if pid == "C08":
+        return {"jobs": world_jobs(["query"], tier, seed, 250, 40000, also_release=True), "release": True,
+                "trusted_base": WORLD_TRUST + ["query menu: 38 monomorphised query types x 13 access paths (harness/src/query_engine.rs)"],
+                "assumptions": ["batch_size >= 1 (batch_size 0 never terminates and is outside the property)"]}
+    if pid == "C17":
+        return {"jobs": world_jobs(["query"], tier, seed, 250, 40000), "trusted_base": WORLD_TRUST,
+                "assumptions": ["world ids are unique (global counter behind a mutex)"]}
     if pid == "C19":
         n = 3000 if q else 2_000_000
         jobs = [{"engine": "bits", "name": f"bits-{i}", "args": ["--seed", seed * 31 + i, "--count", n // (1 if q else NSHARD_THOROUGH)]}
